@@ -388,7 +388,7 @@ def run_stress(case):
     ref_inputs = []
     seq = []
     for (name, seed, size) in calls:
-        I = Inputs(seed, size, shared)
+        I = Inputs(seed, size, shared and not case.get('rw'))     # rw: shared by the threads but not FLAGGED read-only
         r = _call(K[name][0], I)
         ro = shared
         if shared and r[0] == 'exc' and not name.startswith('raise_'):
@@ -904,7 +904,8 @@ def cases(rng, tier):
               'center_of_mass_labels', 'surf_descriptors']:
         if k in REGULAR:
             out.append(dict(kind='stress', threads=rng.choice([8, 16]), shared=True, reps=dict(quick=6, thorough=40, search=10)[tier],
-                            switch=1e-6, reset_perimeter=False, calls=[[k, rng.randint(0, 10 ** 6), rng.choice([24, 40])]]))
+                            switch=1e-6, reset_perimeter=False, rw=bool(rng.random() < 0.5) or k.endswith('_shared_bc'),
+                            calls=[[k, rng.randint(0, 10 ** 6), rng.choice([24, 40])]]))
     for m in range(nmix):
         size = rng.choice([8, 16, 24, 32, 48] + ([64, 96] if tier != 'quick' else []))
         ncalls = rng.randint(3, 8)
